@@ -239,7 +239,9 @@ func (l *Loader) updates() {
 			// notify that we are warmed, but one time only
 			warm.Do(func() { close(l.warm) })
 		case q := <-l.query:
-			go func() {
+			// every lookup works on the configuration that is current now, as one consistent
+			// snapshot: the variables of this loop are rewritten by the next config update
+			go func(prefixDeny, prefixAllow *prefixFilter, providers []tq.SecretProvider) {
 				// prefixFilter will log to prom counters and also act as a quick fail for prefixes that do not pass
 				// muster.  this pevents unnecessary load on scanning SecretProviders
 				if prefixDeny.deny(q.remote) {
@@ -256,7 +258,7 @@ func (l *Loader) updates() {
 				q.cb <- secretProvider{secret: secret, handler: handler, err: err}
 				close(q.cb)
 				buildGet.Inc()
-			}()
+			}(prefixDeny, prefixAllow, providers)
 		}
 	}
 }
